@@ -367,3 +367,169 @@ Proof.
   split; [eexists; split; [vm_compute; reflexivity|vm_compute; reflexivity]|].
   repeat (split; [vm_compute; reflexivity|]). vm_compute; reflexivity.
 Qed.
+
+(* ---------------------------------------------------------------------------------------------
+   THE REORDERING ITSELF IS THE C TEXT, RELATIVE TO A MATCHER ORACLE.  dir_context, dir_match, dir_fix, dir_reorder of dir.c and
+   conf_dirmark, conf_dircontext of conf.c are translated by tools/c2clite.py on every run (GenCFuncs.v; whitelist
+   tools/c2clite.d/99zzz_dir.list).  rset_find -- the pattern matcher over the configured marks -- is NOT translated: a call to it
+   is answered by an oracle `ext` (CLiteExt.callx), exactly as the model DirDefs.v has the matcher as a parameter (`raw b e ctx flg`
+   = the answer of rset_find for the text between chrs[b] and chrs[e]; `ctxfound` for the context patterns).  Every theorem below
+   is stated for EVERY oracle whose answers are described by the model's matcher function (TrDirBase.oracle_ok: the index of the
+   mark or -1 is returned, the 2 * 16 offsets are stored into the array handed over, no other block that existed changes) and for
+   every matcher function with raw_ok (no rset: no match; the index is a row of dirmarks; offsets are ints, the whole match has
+   offsets >= 0); cm_ok (spans inside the searched range, non-empty match: the hypothesis of C18_terminates / C18_runs_reversed)
+   is what makes the order array accesses stay inside the array.  Locals whose address is taken (subs[32], grp, r_beg ... c_rec)
+   are blocks of their own in CLite, so the memory after a call is the old memory with blocks appended: mem_ext m m' bs = no block
+   of m other than those in bs has changed.  Every load and store of the run was inside a live block (an access outside is
+   Err EOob in CLite, and the calls return Ok).  Proofs: coq/TrDirBase.v, coq/TrDirMatch.v, coq/TrDir.v. *)
+From Coq Require Import Lia.
+From NV Require Import CLiteExt TrDirBase TrDirMatch TrDir.
+
+(* the rows of the translated tables are the rows of the generated tables the model reads *)
+Theorem C18_tr_dirmarks_table : forall i, (i < length dirmarks)%nat ->
+  nth_error gb_dirmarks (4 * i) = Some (VInt (dm_ctx i)) /\ nth_error gb_dirmarks (4 * i + 1) = Some (VInt (dm_dir i)) /\
+  nth_error gb_dirmarks (4 * i + 2) = Some (VInt (dm_grp i)) /\ int_ok (dm_ctx i) /\ int_ok (dm_dir i) /\ int_ok (dm_grp i) /\
+  (0 <= dm_grp i <= 15)%Z.
+Proof. exact gb_dirmarks_rows. Qed.
+Print Assumptions C18_tr_dirmarks_table.
+
+(* dir_context: the fast paths (xtd > 1, xtd < -1, xtd == 0 and an ASCII first byte) never reach the matcher: for EVERY oracle
+   the result is the model's, which then does not depend on ctxfound *)
+Theorem C18_tr_dir_context_fast : forall ext m sb s xtd rsctx cf d fuel, ctx_world m sb s xtd rsctx -> ctx_fast s xtd = true ->
+  callx ext cprog fuel (S d) F_dir_context [VPtr sb 0%Z] m = Ok (VInt (dir_context s xtd cf), m ++ [[VUndef]]).
+Proof. exact tr_dir_context_fast. Qed.
+Print Assumptions C18_tr_dir_context_fast.
+
+(* ... and on every path: the model's dir_context for the index the oracle answers (-1 when there is no rset) *)
+Theorem C18_tr_dir_context : forall ext (m : mem) sb s xtd rsctx cf d fuel, ctx_world m sb s xtd rsctx -> ctx_oracle_ok ext rsctx sb s cf ->
+  exists m', callx ext cprog fuel (S (S d)) F_dir_context [VPtr sb 0%Z] m = Ok (VInt (dir_context s xtd cf), m') /\ mem_ext m m' [].
+Proof. exact tr_dir_context. Qed.
+Print Assumptions C18_tr_dir_context.
+
+(* dir_match: 0 is returned exactly when the model finds a mark; the six result cells then hold the model's spans (the byte
+   offsets converted to character indices with uc_off on the copy of the text that was cut at chrs[end]), direction, nesting flag *)
+Theorem C18_tr_dir_match : forall ext fuel d (m : mem) sb s cb chrs rslr rsrl raw b e ctx prec prb pre pcb pce pdir,
+  dir_world m sb s cb chrs rslr rsrl -> (b <= e < length chrs)%nat ->
+  outs_ok m sb cb (dm_outs prec prb pre pcb pce pdir) ->
+  oracle_ok ext s chrs rslr rsrl raw -> raw_ok rslr rsrl raw -> (length s < fuel)%nat ->
+  exists m',
+    callx ext cprog fuel (S (S (S (S d)))) F_dir_match (dm_args cb b e ctx prec prb pre pcb pce pdir) m
+    = Ok (VInt (match dir_match s chrs raw b e ctx with Some _ => 0 | None => 1 end)%Z, m') /\
+    match dir_match s chrs raw b e ctx with
+    | Some res => mem_ext m m' (dm_outs prec prb pre pcb pce pdir) /\ res_cells m' prec prb pre pcb pce pdir res
+    | None => mem_ext m m' []
+    end.
+Proof. exact tr_dir_match. Qed.
+Print Assumptions C18_tr_dir_match.
+
+(* dir_fix: whenever the model's dir_fix returns ord' within fuel f, the translated dir_fix returns (within f iterations and
+   nested calls) and leaves exactly ord' in the order array; nothing else that existed changes *)
+Theorem C18_tr_dir_fix : forall ext FUEL f d (m : mem) sb s cb chrs rslr rsrl raw g ord dir b e N ord',
+  dir_world m sb s cb chrs rslr rsrl -> oracle_ok ext s chrs rslr rsrl raw -> raw_ok rslr rsrl raw ->
+  cm_ok (dir_match s chrs raw) N -> (e <= N)%nat -> (N < length chrs)%nat -> (N <= length ord)%nat ->
+  int_arr_at m g (map Z.of_nat ord) -> ints_ok (map Z.of_nat ord) -> ~ In g (world_blocks sb cb) ->
+  (f < FUEL)%nat -> (length s < FUEL)%nat -> (N < FUEL)%nat ->
+  dir_fix (dir_match s chrs raw) f ord dir b e = Some ord' ->
+  exists m', callx ext cprog FUEL (S (S (S (S (S (f + d)))))) F_dir_fix
+               [VPtr cb 0%Z; VPtr g 0%Z; VInt dir; VInt (Z.of_nat b); VInt (Z.of_nat e)] m = Ok (VUndef, m') /\
+    mem_ext m m' [g] /\ int_arr_at m' g (map Z.of_nat ord').
+Proof. exact (fun ext FUEL f => tr_dir_fix ext FUEL f). Qed.
+Print Assumptions C18_tr_dir_fix.
+
+(* ... hence, under cm_ok, it TERMINATES within the fuel the model states (S (end - beg)) and the array it leaves is a
+   permutation of the array it found (C18_terminates_fix + C18_permutation_fix carried to the C text) *)
+Theorem C18_tr_dir_fix_terminates_permutes : forall ext FUEL d (m : mem) sb s cb chrs rslr rsrl raw g ord dir b e N,
+  dir_world m sb s cb chrs rslr rsrl -> oracle_ok ext s chrs rslr rsrl raw -> raw_ok rslr rsrl raw ->
+  cm_ok (dir_match s chrs raw) N -> (e <= N)%nat -> (N < length chrs)%nat -> (N <= length ord)%nat ->
+  int_arr_at m g (map Z.of_nat ord) -> ints_ok (map Z.of_nat ord) -> ~ In g (world_blocks sb cb) ->
+  (S (e - b) < FUEL)%nat -> (length s < FUEL)%nat -> (N < FUEL)%nat ->
+  exists ord' m',
+    dir_fix (dir_match s chrs raw) (S (e - b)) ord dir b e = Some ord' /\ Permutation ord' ord /\
+    callx ext cprog FUEL (S (S (S (S (S (S (e - b) + d)))))) F_dir_fix
+      [VPtr cb 0%Z; VPtr g 0%Z; VInt dir; VInt (Z.of_nat b); VInt (Z.of_nat e)] m = Ok (VUndef, m') /\
+    mem_ext m m' [g] /\ int_arr_at m' g (map Z.of_nat ord').
+Proof. exact tr_dir_fix_total. Qed.
+Print Assumptions C18_tr_dir_fix_terminates_permutes.
+
+(* dir_reorder: uc_chop, dir_context, the line terminator kept last, dir_fix over the rest, free(chrs) *)
+Theorem C18_tr_dir_reorder : forall ext FUEL d (m : mem) sb s xtd rsctx rslr rsrl cf raw g ord ord',
+  reorder_world m sb s xtd rsctx rslr rsrl ->
+  int_arr_at m g (map Z.of_nat ord) -> ints_ok (map Z.of_nat ord) -> ~ In g (reorder_blocks sb) ->
+  (uc_slen s <= length ord)%nat ->
+  ctx_oracle_ok ext rsctx sb s cf -> oracle_ok ext s (uc_chop s) rslr rsrl raw -> raw_ok rslr rsrl raw ->
+  cm_ok (dir_match s (uc_chop s) raw) (uc_slen s) ->
+  (S (S (length s)) < FUEL)%nat ->
+  dir_reorder s xtd cf raw ord = Some ord' ->
+  exists m', callx ext cprog FUEL (S (S (S (S (S (S (S (uc_slen s) + d))))))) F_dir_reorder [VPtr sb 0%Z; VPtr g 0%Z] m = Ok (VUndef, m') /\
+    mem_ext m m' [g] /\ int_arr_at m' g (map Z.of_nat ord').
+Proof. exact tr_dir_reorder. Qed.
+Print Assumptions C18_tr_dir_reorder.
+
+(* a table oracle satisfies the oracle hypothesis, for every table: the hypotheses above are not idle *)
+Theorem C18_tr_table_oracle : forall tab s chrs rslr rsrl, nonul s ->
+  oracle_ok (tab_ext tab) s chrs rslr rsrl (tab_raw tab rslr rsrl s chrs) /\
+  (Forall tab_entry_ok tab -> raw_ok rslr rsrl (tab_raw tab rslr rsrl s chrs)).
+Proof. intros tab s chrs rslr rsrl H. split; [exact (tab_oracle_ok tab s chrs rslr rsrl H)|exact (tab_raw_ok tab s chrs rslr rsrl)]. Qed.
+Print Assumptions C18_tr_table_oracle.
+
+(* the translated dir_fix RUNS, with a table oracle for two marks, on the six-character line abcdef in a left-to-right context:
+   the oracle finds mark 1 (a right-to-left run, no group) at bytes 1..3 of "abcdef", then mark 0 (a left-to-right mark with a
+   nested group, bytes 1..3 of the match) on "def", and inside that group mark 1 on "ef".  Characters 1,2 are swapped, dir_fix
+   recurses into 4..6 and swaps 4,5: ord = 0 2 1 3 5 4, which is what the model computes with the matcher function of the same
+   table; the hypotheses of C18_tr_dir_fix hold for this memory, oracle and matcher (so the theorem applies to this run). *)
+Definition C18_ex_tab : list (list Z * rawres) :=
+  [([97; 98; 99; 100; 101; 102]%Z, (1%nat, [1; 3]%Z)); ([100; 101; 102]%Z, (0%nat, [0; 3; 1; 3]%Z)); ([101; 102]%Z, (1%nat, [0; 2]%Z))].
+Definition C18_ex_s : bytes := [97; 98; 99; 100; 101; 102]%N.
+Definition C18_ex_lr : val := VPtr G_dir_rslr 0%Z.
+Definition C18_ex_mem : mem :=
+  CLiteProps.upd cglobals G_dir_rslr [C18_ex_lr] ++
+  [cstr_block (zb C18_ex_s); map (TrDirBase.cptr (length cglobals)) (uc_chop C18_ex_s); map VInt [0; 1; 2; 3; 4; 5]%Z].
+Definition C18_ex_raw := tab_raw C18_ex_tab C18_ex_lr (VInt 0%Z) C18_ex_s (uc_chop C18_ex_s).
+
+Example C18_tr_dir_nonvacuous :
+  let sb := length cglobals in let cb := S sb in let g := S (S sb) in
+  dir_world C18_ex_mem sb C18_ex_s cb (uc_chop C18_ex_s) C18_ex_lr (VInt 0%Z) /\
+  oracle_ok (tab_ext C18_ex_tab) C18_ex_s (uc_chop C18_ex_s) C18_ex_lr (VInt 0%Z) C18_ex_raw /\
+  raw_ok C18_ex_lr (VInt 0%Z) C18_ex_raw /\
+  cm_ok (dir_match C18_ex_s (uc_chop C18_ex_s) C18_ex_raw) 6 /\
+  int_arr_at C18_ex_mem g (map Z.of_nat (seq 0 6)) /\ ints_ok (map Z.of_nat (seq 0 6)) /\ ~ In g (world_blocks sb cb) /\
+  dir_fix (dir_match C18_ex_s (uc_chop C18_ex_s) C18_ex_raw) 7 (seq 0 6) 1%Z 0 6 = Some [0; 2; 1; 3; 5; 4]%nat /\
+  (exists m', callx (tab_ext C18_ex_tab) cprog 50 12 F_dir_fix [VPtr cb 0%Z; VPtr g 0%Z; VInt 1%Z; VInt 0%Z; VInt 6%Z] C18_ex_mem = Ok (VUndef, m') /\
+     nth_error m' g = Some (map VInt [0; 2; 1; 3; 5; 4]%Z) /\ firstn g m' = firstn g C18_ex_mem) /\
+  (* with no rset on either side nothing matches and nothing is written: the identity *)
+  (exists m', callx (tab_ext C18_ex_tab) cprog 50 12 F_dir_fix [VPtr cb 0%Z; VPtr g 0%Z; VInt 1%Z; VInt 0%Z; VInt 6%Z]
+                (cglobals ++ skipn (length cglobals) C18_ex_mem) = Ok (VUndef, m') /\
+     nth_error m' g = Some (map VInt [0; 1; 2; 3; 4; 5]%Z)).
+Proof.
+  cbv zeta.
+  assert (Hnn : nonul C18_ex_s) by (repeat constructor; vm_compute; try discriminate; reflexivity).
+  split.
+  { constructor; try (vm_compute; reflexivity); try exact Hnn.
+    - exact (proj1 (uc_chop_ok C18_ex_s)).
+    - right. eexists _, _. reflexivity.
+    - left. reflexivity.
+    - vm_compute. discriminate. }
+  split; [exact (tab_oracle_ok _ _ _ _ _ Hnn)|].
+  split.
+  { apply tab_raw_ok. unfold C18_ex_tab. repeat (apply Forall_cons; [|]); [| | |apply Forall_nil];
+      (split; [vm_compute; lia|split; [|split; vm_compute; discriminate]]);
+      (apply Forall_forall; intros x Hx; apply in_map_iff in Hx; destruct Hx as [k [<- Hk]]; apply in_seq in Hk;
+       do 32 (destruct k as [|k]; [vm_compute; split; discriminate|]); lia). }
+  split.
+  { intros b e dd r Hb He Hd. apply span_okb_ok.
+    assert (Hd' : dir_match C18_ex_s (uc_chop C18_ex_s) C18_ex_raw b e (if (dd <? 0)%Z then (-1)%Z else 0%Z) = Some r).
+    { rewrite <- Hd. unfold dir_match, C18_ex_raw, tab_raw, rs_of. destruct (dd <? 0)%Z; reflexivity. }
+    clear Hd.
+    assert (Hall : forallb (fun b0 => forallb (fun e0 => forallb (fun d0 =>
+              match dir_match C18_ex_s (uc_chop C18_ex_s) C18_ex_raw b0 e0 d0 with Some r0 => span_okb b0 e0 r0 | None => true end)
+              [(-1)%Z; 0%Z]) (seq 0 7)) (seq 0 7) = true) by (vm_compute; reflexivity).
+    rewrite forallb_forall in Hall. specialize (Hall b ltac:(apply in_seq; lia)).
+    rewrite forallb_forall in Hall. specialize (Hall e ltac:(apply in_seq; lia)).
+    rewrite forallb_forall in Hall. specialize (Hall (if (dd <? 0)%Z then (-1)%Z else 0%Z) ltac:(destruct (dd <? 0)%Z; cbn; auto)).
+    rewrite Hd' in Hall. exact Hall. }
+  split; [vm_compute; reflexivity|]. split; [apply ints_ok_dec; vm_compute; reflexivity|].
+  split; [vm_compute; intuition discriminate|].
+  split; [vm_compute; reflexivity|].
+  split; [eexists; split; [vm_compute; reflexivity|split; vm_compute; reflexivity]|].
+  eexists; split; [vm_compute; reflexivity|vm_compute; reflexivity].
+Qed.
